@@ -79,3 +79,15 @@ func TestC13(t *testing.T) {
 			return x.Labels["race:snapshot-ok"] > 0
 		})
 }
+
+// ---- C07 (merge tier) --------------------------------------------------------
+
+var c07Cfg = SGenCfg{RFs: []int{2, 3, 3}, MinOps: 3, MaxOps: 14, FaultPct: 25, Blocks: 16,
+	W: map[string]int{"write": 40, "snapshot": 10, "rebuildnew": 22, "remove": 8, "nodedrop": 4, "read": 6, "sync": 2}}
+
+func TestC07(t *testing.T) {
+	runStackProperty(t, "C07", "TestC07", func(rt *rapid.T) SProgram { return GenSProgram(rt, c07Cfg) },
+		func(p SProgram, x *SExec) bool {
+			return x.Labels["rebuild:promoted"] > 0 && x.Labels["write:acked"] > 0
+		})
+}
